@@ -23,7 +23,7 @@ PLAN = dict(
           "panics are caught and located, aborts kill the shard and are attributed, every case runs under a "
           "deterministic allocation budget proportional to input length (x expansions for alternations) and a "
           "60 s wall-clock watchdog. All of it runs on a 2 MiB thread (Rust's default for spawned threads). "
-          "Package-database trees also hold dangling / looping / file / directory links and directories under metadata names; the iterator is driven in pages through by_ref() and polled again after its end; every pattern is also matched against the first one, two and three characters of its own text and of each alternative. "
+          "Package-database trees also hold dangling / looping / file / directory links and directories under metadata names; the iterator is driven in pages through by_ref() and polled again after its end; every pattern is also matched against the first one, two and three characters of its own text and of each alternative; every entry of a parsed distinfo is also verified against a small file that exists. "
           "Deep-structure probes: 20 kinds of structurally huge input (1 000 / 10 000 / 30 000-150 000 brace groups side "
           "by side or nested, '*' / '?' / sets in a glob, version components and letters, '-' in a name, path segments, "
           "lines of one summary variable, stream entries, pushes, PLIST lines and @ignore runs, distinfo files and "
